@@ -438,7 +438,10 @@ class FormulaMaterializer(metaclass=FormulaMaterializerMeta):
                 scoped_terms: Iterable[ScopedTerm] = self._simplify_scoped_terms(
                     term_span
                 )
-                spanned.update(term_span)
+                # A term scaled by a literal zero spans nothing.
+                spanned.update(
+                    scoped_term for scoped_term in term_span if scoped_term.scale != 0
+                )
             else:
                 scoped_terms = [
                     ScopedTerm(
